@@ -224,20 +224,20 @@ def total_cases(rng, tier):
     add("asset", R.write_archive(bytes(4) + b"\x01\x00\x00\x00\x04\x00\x00" + bytes(4) + b"\x01\x02"), "edge")   # colour cut after 2 bytes
     # (a) random bytes
     for kind in KINDS:
-        for _ in range(150 if quick else 6000):
+        for _ in range(150 if quick else 2000):
             n = rng.choice([0, 1, 31, 32, 33, rng.randint(0, 64), rng.randint(0, 512)])
             add(kind, random_bytes(rng, n), "random-bytes")
     # (b) random content behind a valid container
-    for _ in range(300 if quick else 12000):
+    for _ in range(300 if quick else 4000):
         add("aset", structured_aset(rng), "structured-random")
-    for _ in range(400 if quick else 12000):
+    for _ in range(400 if quick else 4000):
         add("asset", structured_asset(rng), "structured-random")
     # (c) truncations and field mutations of valid generated files and of the game files
-    for f in sample_aset_files(rng, 3 if quick else 30):
+    for f in sample_aset_files(rng, 3 if quick else 12):
         step = max(1, len(f) // (60 if quick else 600))
         for (what, g) in mutations(rng, f, quick, aset_words(f, rng, 10 if quick else 80), step):
             add("aset", g, what)
-    for f in sample_asset_files(rng, 4 if quick else 40):
+    for f in sample_asset_files(rng, 4 if quick else 16):
         step = 1 if (not quick or len(f) < 120) else 3
         for (what, g) in mutations(rng, f, quick, asset_words(f, rng, 12 if quick else 100), step):
             add("asset", g, what)
@@ -246,8 +246,8 @@ def total_cases(rng, tier):
         f = open(pa, "rb").read()
         add("aset", f, "gamefile")
         # the model's list-based from_bytes is quadratic in the file size (14 KiB: 0.1 s per case): a sample only
-        for (what, g) in mutations(rng, f, True, aset_words(f, rng, 6 if quick else 60), 2999 if quick else 61,
-                                   max_tables=2 if quick else 48, nvals=1 if quick else 5):
+        for (what, g) in mutations(rng, f, True, aset_words(f, rng, 6 if quick else 30), 2999 if quick else 211,
+                                   max_tables=2 if quick else 12, nvals=1 if quick else 5):
             add("aset", g, "game-" + what)
     pb = os.path.join(TESTDIR, "AssetBinary_Test.bin")
     if os.path.exists(pb):
@@ -255,6 +255,8 @@ def total_cases(rng, tier):
         add("asset", f, "gamefile")
         for (what, g) in mutations(rng, f, quick, asset_words(f, rng, 16 if quick else 200), 13 if quick else 1):
             add("asset", g, "game-" + what)
+    # the runner splits the list into contiguous shards: spread the expensive cases (14 KiB game file in the list-based model)
+    rng.shuffle(cases)
     return cases
 
 
